@@ -11,6 +11,14 @@ import Csproto.Props.C14
   C14: a recycled object is cleared, so the values are those of the goroutine's own input.
   Data-race freedom in the sense of the Go memory model itself is NOT carried by the model; the race
   detector run of the check is supporting evidence only.
+
+  The model has exactly two kinds of locations — objects and the constructor-written tables.  That the
+  code has no third kind is a regenerated fact: `Bridge.no_package_level_state_mutated` (no function of
+  lazyproto mutates a package-level variable at run time; `Bridge/LazyWrites.lean`, fact F17) next to
+  `Bridge.shared_written_only_by_constructors` / `Bridge.writes_classified` (field writes, fact F15).
+  What a goroutine was HANDED (byte slices, strings, typed slices) is Go aliasing, not in the model: in
+  safe mode the values must be copies (`Bridge.lazyAccessors_ok` pins the cloning accessors), and the
+  check keeps every value across `Close` and later decodes, in-process and under the race detector.
 -/
 namespace Csproto.C15
 open Csproto
